@@ -121,7 +121,7 @@ def E(kind):
 
 # ------------------------------------------------------------------------------------------ paths
 
-@model(r'<T as AsRef<Path>>::as_ref|Path::to_path_buf|<PathBuf as Deref>::deref|<&?PathBuf as AsRef<Path>>::as_ref|PathBuf::as_path|<PathBuf as Clone>::clone|<&Path as AsRef<Path>>::as_ref|PathBuf::from|<PathBuf as From<.+>>::from|<str as AsRef<Path>>::as_ref|<String as AsRef<Path>>::as_ref|<&str as AsRef<Path>>::as_ref|Path::new::<.+>')
+@model(r'<T as AsRef<Path>>::as_ref|Path::to_path_buf|<PathBuf as Deref>::deref|<OsString as Deref>::deref|<OsString as AsRef<OsStr>>::as_ref|OsString::as_os_str|<&?PathBuf as AsRef<Path>>::as_ref|PathBuf::as_path|<PathBuf as Clone>::clone|<&Path as AsRef<Path>>::as_ref|PathBuf::from|<PathBuf as From<.+>>::from|<str as AsRef<Path>>::as_ref|<String as AsRef<Path>>::as_ref|<&str as AsRef<Path>>::as_ref|Path::new::<.+>')
 def m_path_conv(ex, c, a, m):
     return as_S(a[0])
 
@@ -476,3 +476,13 @@ def m_file_set_times(ex, c, a, m):
     if ft.fields[1].variant == 'Some':
         h.node.atime = ft.fields[1].fields[0]
     return Ok(UNIT)
+
+
+@model(r'OsString::to_string_lossy|OsStr::to_string_lossy|std::ffi::OsStr::to_string_lossy|Path::to_string_lossy')
+def m_to_string_lossy(ex, c, a, m):
+    s = as_S(a[0])
+    if not s.is_concrete():
+        if ex.branch(models.utf8_valid(ex, s)):
+            return Adt('Cow', 'Borrowed', [s])
+        raise Unmodelled('to_string_lossy of a symbolic non-UTF-8 name')
+    return Adt('Cow', 'Owned', [S(bytes(s).decode('utf-8', 'replace').encode('utf-8'))])
